@@ -56,7 +56,7 @@ func c01Alphabet() []dbx.Txn {
 	want := map[string]bool{}
 	for _, n := range []string{
 		"ins R 11", "del R 11", "rename R 11", "ins R r1 full", "ins chain R r1->a1->b1", "ins chain R r1->a1->b1 with b1.wp->p1", "ins R r1,r2 sharing a1",
-		"ins N1 a2 + R 11.sset+=", "R 11.sset-=a1", "R 11.sset-=a2", "R 11.sset:=[]", "R 11.sset:=all", "R 11.sopt:=a1", "R 11.sopt:=a2", "R 11.sopt:=[]",
+		"ins N1 a2 + R 11.sset+=", "R 11.sset-=a1", "R 11.sset-=a2", "R 11.sset:=[]", "R 11.sset:=all", "R 11 write-back sset,wset:=all cnt:=6", "R 11.sopt:=a1", "R 11.sopt:=a2", "R 11.sopt:=[]",
 		"R 11.smap insert k2:a2", "R 11.smap delete key k2", "R 11.smap:={}", "R 11.smap[k1]:=a2 (update)", "R 11.kmap insert a1:x", "R 11.kmap delete key a1",
 		"R 11.wset:=all", "R 11.wopt:=a2", "R 11.wmap insert k1:a1", "del PR p1 + R r1.sset:=[]", "R r1.sset-=a1 + del PR p1", "del PR p1",
 		"R r1.cnt:=5", "R r1.cnt:=0", "R r1.cnt+=1", "R r1.cnt-=1", "R r1.cnt*=0", "R r1.name:=\"\"", "rename N1 a1", "N1 a1.next:=[]", "ins N2 b1 + N1 a1.next:=",
